@@ -30,6 +30,16 @@ from .values import (
 )
 
 
+class KwPack:
+    """the **kwargs dict of an inlined call that received explicit keywords it has no parameter for: forwarded by `**kwargs` item by item."""
+
+    def __init__(self, items):
+        self.items = dict(items)
+
+    def __repr__(self):
+        return "KwPack(" + ", ".join(self.items) + ")"
+
+
 class StarArgs:
     """*args / **kwargs forwarded as a unit."""
 
@@ -67,7 +77,10 @@ def ev_call(eng, e, st):
         kwargs = {}
         for k, v in zip(e.keywords, vals[1 + len(arg_exprs) :]):
             if k.arg is None:
-                kwargs["**"] = StarArgs(v, True)
+                if isinstance(v, KwPack):
+                    kwargs.update(v.items)
+                else:
+                    kwargs["**"] = StarArgs(v, True)
             else:
                 kwargs[k.arg] = v
         if isinstance(f, ast.Attribute):
@@ -128,16 +141,21 @@ def bind_params(eng, fn_node, args, kwargs):
     for n, d in zip(names[len(names) - len(defaults) :], defaults):
         if n not in env and n not in kwargs:
             env[n] = ("default", d)
+    packed = {}
     for k, v in kwargs.items():
         if k == "**":
             if a.kwarg:
                 env[a.kwarg.arg] = v.v
             else:
                 raise Unsupported("**kwargs into a function without **kwargs")
+        elif a.kwarg and k not in names and k not in [x.arg for x in a.kwonlyargs]:
+            packed[k] = v
         else:
             env[k] = v
     if a.kwarg and a.kwarg.arg not in env:
-        env[a.kwarg.arg] = Opaque("empty-kwargs")
+        env[a.kwarg.arg] = KwPack(packed) if packed else Opaque("empty-kwargs")
+    elif packed:
+        raise Unsupported("explicit keywords next to a forwarded ** mapping")
     for kw, d in zip(a.kwonlyargs, a.kw_defaults):
         if kw.arg not in env:
             if d is None:
